@@ -84,6 +84,10 @@ func (s *Sender) Send(ctx context.Context, msg message.Message) error {
 	if len(s.extraData) != 0 {
 		msg.ExtraData = s.extraData
 	}
+	// What a receiver cannot read the addresses of, it drops whole.
+	if _, err := msg.GetAddrs(); err != nil {
+		return fmt.Errorf("announce message has an unreadable address: %w", err)
+	}
 	buf := bytes.NewBuffer(nil)
 	if err := msg.MarshalCBOR(buf); err != nil {
 		return err
